@@ -11,7 +11,9 @@ t0 = time.time()
 for q, c in g.contracts.items():
     if pat not in q or c.get('virtual'): continue
     try:
-        obls, info = g.run(q)
+        import pyvc.check as CK
+        obls, infos, inapp = CK.gen_obligations(g, dict(functions=[q]))
+        if inapp: print('INAPPLICABLE', inapp)
     except Exception as e:
         import traceback; traceback.print_exc(); print('FAIL', q, e); continue
     res = discharge(obls, timeout=int(sys.argv[2]) if len(sys.argv) > 2 else 10)
